@@ -13,6 +13,7 @@ import binascii, base64 as _real_b64
 import secure_cookie.cookie as sc
 import clastic.middleware.cookie as CK
 from clastic.middleware.cookie import JSONCookie, SignedCookieMiddleware
+from harness.util import R, untraced
 
 ALPHA = '?&="aé'
 
@@ -222,3 +223,35 @@ def ob_serialize_roundtrip(shape: int, a: int, flag: bool) -> bool:
     tam = ser[:-1] + (b'A' if ser[-1:] != b'A' else b'B')
     t = JSONCookie.unserialize(tam.decode('ascii'), b'key')
     return dict(back) == {'k': v} and len(other) == 0 and len(t) == 0
+
+
+def _expiry_seq(exp, t1, t2, t3):
+    """one genuinely signed cookie (real HMAC/base64/json) presented three times while the clock advances:
+    each presentation is judged on its own - shown iff now <= _expires."""
+    c = JSONCookie({'user': 'alice'}, b'key')
+    c['_expires'] = exp
+    ser = c.serialize().decode('ascii')
+    o = sc.time
+    try:
+        now = t1
+        for now in (t1, t1 + t2, t1 + t2 + t3):
+            sc.time = lambda now=now: now
+            got = JSONCookie.unserialize(ser, b'key')
+            if now > exp:
+                if len(got) != 0:
+                    return False
+            elif dict(got) != {'user': 'alice'}:
+                return False
+        return True
+    finally:
+        sc.time = o
+
+
+def ob_expiry_seq(exp: int, t1: int, t2: int, t3: int) -> bool:
+    exp, t1, t2, t3 = R(exp), R(t1), R(t2), R(t3)
+    with untraced():
+        return _expiry_seq(exp, t1, t2, t3)
+
+
+def confirm_expiry_seq(exp, t1, t2, t3):
+    return not _expiry_seq(exp, t1, t2, t3)
